@@ -13,8 +13,8 @@ import (
 	"path/filepath"
 )
 
-var subs = []string{"", "", "a", "a/b", "a/b/c", "x y/z", "deep/er/est"}
-var dirModes = []string{"", "", "", "abs", "rel", "ergo", "absergo", "slash", "dotdot", "deep", "dot", "dot", "relsub"}
+var subs = []string{"", "", "a", "a/b", "a/b/c", "x y/z", "deep/er/est", "lnkin", "lnkout", "lnkout/sub"}
+var dirModes = []string{"", "", "", "abs", "rel", "ergo", "absergo", "slash", "dotdot", "deep", "dot", "dot", "relsub", "ergoslash", "absergoslash"}
 
 func runLayoutGenerated(bin string, seed uint64) *RunReport {
 	sc, rng := newScenario("C18", "layout", seed)
@@ -30,6 +30,13 @@ func runLayoutGenerated(bin string, seed uint64) *RunReport {
 	r := NewRun(bin, sc)
 	defer r.Close()
 	r.InitStore()
+	// start directories that are inside the project only through a symbolic
+	// link: to a directory of the project, and to one outside it. The logical
+	// path (what the shell's PWD says) is inside the project.
+	os.MkdirAll(filepath.Join(r.W.Proj, "a", "b"), 0o755)
+	os.MkdirAll(filepath.Join(r.W.Root, "shared", "sub"), 0o755)
+	os.Symlink("a/b", filepath.Join(r.W.Proj, "lnkin"))
+	os.Symlink("../shared", filepath.Join(r.W.Proj, "lnkout"))
 	if rng.Chance(1, 2) {
 		// work products to attach: results carry a file URL that must not
 		// depend on how the project was reached
